@@ -19,11 +19,20 @@ def le(n, size):
     return list(int(n).to_bytes(size, 'little'))
 
 
-def observe(rec: bytes, oid):
+def observe(rec: bytes, oid, how=0):
+    """how: 0 the record as bytes; 1 as bytearray; 2 as a memoryview of a buffer the caller REFILLS after the call
+    (read-into style): the event was decoded from the record, it must not follow the buffer"""
     from pykdebugparser.kevent import from_kd_buf
     o = {'id': oid, 'r': list(rec)}
     try:
-        e = from_kd_buf(rec)
+        if how == 0:
+            e = from_kd_buf(rec)
+        else:
+            buf = bytearray(rec)
+            e = from_kd_buf(buf if how == 1 else memoryview(buf))
+            buf[:] = bytes(b ^ 0xa5 for b in buf)          # the caller reuses its buffer for the next record
+            if not isinstance(e.data, bytes):
+                o['err'] = 'data-is-%s' % type(e.data).__name__
         o.update(ts=le(e.timestamp, 8), data=list(e.data), values=[le(v, 8) for v in e.values], tid=le(e.tid, 8),
                  debugid=le(e.debugid, 4), eventid=le(e.eventid, 4), qual=int(e.func_qualifier))
         if len(o['data']) != 32 or len(e.values) != 4:
@@ -107,7 +116,7 @@ def run(ctx):
         rec = bytes(rnd.getrandbits(8) for _ in range(64))
         oid = 'rnd%d' % k
         recs[oid] = rec
-        obs.append(observe(rec, oid))
+        obs.append(observe(rec, oid, how=k % 3))
     # every event id of the bundled code table x the four qualifiers as debug id, other fields random / structured
     from pykdebugparser.trace_codes import default_trace_codes
     import struct
